@@ -189,7 +189,7 @@ func (fc *FnCtx) checkFrame(st *State) {
 	}
 }
 
-type frameGoal struct{ key, goal, text string }
+type frameGoal struct{ key, goal, text, atForm string }
 
 // frameGoals: one formula per heap variable whose current value differs from the entry value.
 func (fc *FnCtx) frameGoals(st *State) (goals []frameGoal) {
@@ -280,14 +280,26 @@ func (fc *FnCtx) frameGoals(st *State) (goals []frameGoal) {
 		case "iter":
 			continue
 		case "global", "ghost":
-			goals = append(goals, frameGoal{k, eq(cur, was), "assigns: " + k + " unchanged"})
+			goals = append(goals, frameGoal{key: k, goal: eq(cur, was), text: "assigns: " + k + " unchanged"})
 		default:
 			conds := []string{app("<=", "0", "r!f"), app("<", "r!f", alloc0)}
 			for _, r := range allowedRefs[k] {
 				conds = append(conds, not(eq("r!f", r)))
 			}
 			g := fmt.Sprintf("(forall ((r!f Int)) (=> %s (= (select %s r!f) (select %s r!f))))", and(conds...), cur, was)
-			goals = append(goals, frameGoal{k, g, "assigns: " + k + " unchanged except " + strings.Join(allowedRefs[k], ",")})
+			fg := frameGoal{key: k, goal: g, text: "assigns: " + k + " unchanged except " + strings.Join(allowedRefs[k], ",")}
+			if h.kind == "elem" && isAtom(cur) && isAtom(was) {
+				// the same fact through the element accessor (a consequence of the accessor's definition;
+				// only ever assumed together with the select form above)
+				at := fc.atFn(h.ty)
+				conds2 := []string{app("<=", "0", "a!q"), app("<", "a!q", alloc0)}
+				for _, r := range allowedRefs[k] {
+					conds2 = append(conds2, not(eq("a!q", r)))
+				}
+				fg.atForm = fmt.Sprintf("(forall ((a!q Int) (o!q Int) (i!q Int)) (! (=> %s (= (%s %s a!q o!q i!q) (%s %s a!q o!q i!q))) :pattern ((%s %s a!q o!q i!q)) :pattern ((%s %s a!q o!q i!q))))",
+					and(conds2...), at, cur, at, was, at, cur, at, was)
+			}
+			goals = append(goals, fg)
 		}
 	}
 	return
